@@ -569,6 +569,9 @@ func triageCrash(res *famResult, bin string, f *Family, tier, variant string, sh
 	}
 	if deaths == 3 {
 		sig := "fatal:" + f.Name + ":" + k2
+		if f.FatalPerCase {
+			sig += fmt.Sprintf(":case=%v", choices)
+		}
 		res.violN[sig]++
 		if _, ok := res.viol[sig]; !ok {
 			res.viol[sig] = &Violation{Family: f.Name, Variant: variant, Choices: choices, Sig: sig, Msg: "worker process dies or hangs deterministically on this case: " + k2}
@@ -910,6 +913,9 @@ func replayMain(spec *Spec, path string) int {
 		switch {
 		case died:
 			obs[i] = "fatal:" + f.Name + ":" + kind
+			if f.FatalPerCase {
+				obs[i] += fmt.Sprintf(":case=%v", rec.Violation.Choices)
+			}
 		case fin == nil:
 			obs[i] = "?"
 		default:
